@@ -311,6 +311,11 @@ class MPNLRICollection:
         if family_key[0] != AFI.ipv6:
             return nh_rd + nh_packed
 
+        # the next hop of an IPv6 family is an IPv6 address: an IPv4 one goes out IPv4-mapped
+        # (RFC 4798 section 2, RFC 4659 section 3.2.1.2); 4 octets are not a next hop a peer can read
+        if len(nh_packed) == 4:
+            nh_packed = bytes(10) + b'\xff\xff' + bytes(nh_packed)
+
         # Check if LLNH capability is negotiated
         if not negotiated.linklocal_nexthop:
             # Without LLNH, just send the nexthop as-is
